@@ -1,0 +1,238 @@
+//! Verification-only instrumentation (cargo feature `verif-hooks`, off by default).
+//!
+//! Nothing in this module changes what the analysis computes unless a harness
+//! explicitly installs an order on the current thread:
+//!
+//! * H1 — size reports: [`index_sizes`] lists the entry count of every map of every
+//!   index, of the VFS and of the module tree; [`file_refs`] counts the entries that
+//!   still mention a given file id.
+//! * H2 — order seams: [`permute`] / [`permute_by_key`] are called where the iteration
+//!   order of a hash container can reach an observable result. They are the identity
+//!   unless the harness installed an order for that site with [`install_order`]
+//!   (thread-local); they record the lengths seen per site so that a harness can
+//!   enumerate all `k!` orders.
+use std::cell::RefCell;
+use std::collections::BTreeMap;
+
+use crate::{DbIndex, FileId};
+
+// ------------------------------------------------------------------ H2: order seams
+
+#[derive(Default)]
+struct SeamState {
+    /// site -> installed permutation (applied to every call at the site whose
+    /// length equals the permutation's length)
+    orders: BTreeMap<&'static str, Vec<usize>>,
+    /// sort into a canonical base order (by key) before applying a permutation, so
+    /// that "permutation p" means the same order in every process
+    canonical: bool,
+    /// site -> lengths seen, in call order
+    seen: BTreeMap<&'static str, Vec<usize>>,
+    recording: bool,
+}
+
+thread_local! {
+    static SEAMS: RefCell<SeamState> = RefCell::new(SeamState::default());
+}
+
+/// Install `order` for `site` on the current thread: a later `permute(site, v)` with
+/// `v.len() == order.len()` rearranges `v` so that `new[i] = old[order[i]]`.
+/// Installing any order also switches length recording on.
+pub fn install_order(site: &'static str, order: Vec<usize>) {
+    SEAMS.with(|s| {
+        let mut s = s.borrow_mut();
+        s.orders.insert(site, order);
+        s.recording = true;
+    });
+}
+
+/// Remove every installed order, the canonical flag and the recorded lengths.
+pub fn clear_orders() {
+    SEAMS.with(|s| *s.borrow_mut() = SeamState::default());
+}
+
+/// When on, `permute_by_key` sorts by key before applying the (possibly absent)
+/// installed order, and lengths are recorded. Off by default.
+pub fn set_canonical(on: bool) {
+    SEAMS.with(|s| {
+        let mut s = s.borrow_mut();
+        s.canonical = on;
+        if on {
+            s.recording = true;
+        }
+    });
+}
+
+/// Lengths seen per site since the last `clear_orders` (only recorded while a harness
+/// is active, i.e. after `install_order` or `set_canonical(true)`).
+pub fn seen_lengths() -> Vec<(&'static str, Vec<usize>)> {
+    SEAMS.with(|s| {
+        s.borrow()
+            .seen
+            .iter()
+            .map(|(k, v)| (*k, v.clone()))
+            .collect()
+    })
+}
+
+/// Names of the seam sites reached since the last `clear_orders` (see `seen_lengths`).
+pub fn seen_sites() -> Vec<&'static str> {
+    SEAMS.with(|s| s.borrow().seen.keys().copied().collect())
+}
+
+fn apply<T>(order: &[usize], v: &mut Vec<T>) {
+    let n = v.len();
+    if order.len() != n {
+        return;
+    }
+    let mut used = vec![false; n];
+    for &i in order {
+        if i >= n || used[i] {
+            return; // not a permutation: ignore
+        }
+        used[i] = true;
+    }
+    let mut slots: Vec<Option<T>> = v.drain(..).map(Some).collect();
+    for &i in order {
+        if let Some(x) = slots[i].take() {
+            v.push(x);
+        }
+    }
+}
+
+/// Order seam. Identity unless an order is installed for `site` on this thread.
+pub fn permute<T>(site: &'static str, v: &mut Vec<T>) {
+    SEAMS.with(|s| {
+        let mut s = s.borrow_mut();
+        if !s.recording {
+            return;
+        }
+        s.seen.entry(site).or_default().push(v.len());
+        if let Some(order) = s.orders.get(site) {
+            apply(order, v);
+        }
+    });
+}
+
+/// Order seam for containers whose base order is itself hash dependent: when a harness
+/// is active the elements are first sorted by `key`, then the installed order (if any)
+/// is applied. Identity when no harness is active.
+pub fn permute_by_key<T, K: Ord>(site: &'static str, v: &mut Vec<T>, key: impl FnMut(&T) -> K) {
+    SEAMS.with(|s| {
+        let mut s = s.borrow_mut();
+        if !s.recording {
+            return;
+        }
+        s.seen.entry(site).or_default().push(v.len());
+        let order = s.orders.get(site);
+        if s.canonical || order.is_some() {
+            v.sort_by_cached_key(key);
+        }
+        if let Some(order) = order {
+            apply(order, v);
+        }
+    });
+}
+
+/// A mutable view of a hash map whose `iter_mut` goes through an order seam.
+/// `Deref`s to the map for everything else, so it can shadow a `&mut HashMap` binding.
+pub struct OrderedMapView<'a, K, V> {
+    site: &'static str,
+    map: &'a mut hashbrown::HashMap<K, V>,
+}
+
+impl<'a, K: std::fmt::Debug, V> OrderedMapView<'a, K, V> {
+    pub fn new(site: &'static str, map: &'a mut hashbrown::HashMap<K, V>) -> Self {
+        Self { site, map }
+    }
+
+    pub fn iter_mut(&mut self) -> std::vec::IntoIter<(&K, &mut V)> {
+        let mut v: Vec<(&K, &mut V)> = self.map.iter_mut().collect();
+        permute_by_key(self.site, &mut v, |(k, _)| format!("{:?}", k));
+        v.into_iter()
+    }
+}
+
+impl<K, V> std::ops::Deref for OrderedMapView<'_, K, V> {
+    type Target = hashbrown::HashMap<K, V>;
+    fn deref(&self) -> &Self::Target {
+        self.map
+    }
+}
+
+impl<K, V> std::ops::DerefMut for OrderedMapView<'_, K, V> {
+    fn deref_mut(&mut self) -> &mut Self::Target {
+        self.map
+    }
+}
+
+// ------------------------------------------------------------------ H1: size reports
+
+/// Entry counts of every map of every index, the VFS and the module tree, as
+/// `(name, count)` pairs in a fixed order.
+pub fn index_sizes(db: &DbIndex) -> Vec<(String, usize)> {
+    let mut out = Vec::new();
+    let mut add = |prefix: &str, v: Vec<(&'static str, usize)>| {
+        for (k, n) in v {
+            out.push((format!("{prefix}.{k}"), n));
+        }
+    };
+    add("decl", db.get_decl_index().verif_sizes());
+    add("reference", db.get_reference_index().verif_sizes());
+    add("type", db.get_type_index().verif_sizes());
+    add("module", db.get_module_index().verif_sizes());
+    add("member", db.get_member_index().verif_sizes());
+    add("property", db.get_property_index().verif_sizes());
+    add("signature", db.get_signature_index().verif_sizes());
+    add("diagnostic", db.get_diagnostic_index().verif_sizes());
+    add("operator", db.get_operator_index().verif_sizes());
+    add("flow", db.get_flow_index().verif_sizes());
+    add("dependency", db.get_file_dependencies_index().verif_sizes());
+    add("metatable", db.get_metatable_index().verif_sizes());
+    add("global", db.get_global_index().verif_sizes());
+    add("schema", db.get_json_schema_index().verif_sizes());
+    add("vfs", db.get_vfs().verif_sizes());
+    out
+}
+
+/// Per index map: the number of entries that mention `file_id` (as key, as part of an
+/// id, as a declaration location …), as `(name, count)` pairs; only non-zero counts.
+pub fn file_refs_detail(db: &DbIndex, file_id: FileId) -> Vec<(String, usize)> {
+    let mut out = Vec::new();
+    let mut add = |prefix: &str, v: Vec<(&'static str, usize)>| {
+        for (k, n) in v {
+            if n > 0 {
+                out.push((format!("{prefix}.{k}"), n));
+            }
+        }
+    };
+    add("decl", db.get_decl_index().verif_file_refs(file_id));
+    add("reference", db.get_reference_index().verif_file_refs(file_id));
+    add("type", db.get_type_index().verif_file_refs(file_id));
+    add("module", db.get_module_index().verif_file_refs(file_id));
+    add("member", db.get_member_index().verif_file_refs(file_id));
+    add("property", db.get_property_index().verif_file_refs(file_id));
+    add("signature", db.get_signature_index().verif_file_refs(file_id));
+    add("diagnostic", db.get_diagnostic_index().verif_file_refs(file_id));
+    add("operator", db.get_operator_index().verif_file_refs(file_id));
+    add("flow", db.get_flow_index().verif_file_refs(file_id));
+    add(
+        "dependency",
+        db.get_file_dependencies_index().verif_file_refs(file_id),
+    );
+    add("metatable", db.get_metatable_index().verif_file_refs(file_id));
+    add("global", db.get_global_index().verif_file_refs(file_id));
+    add("vfs", db.get_vfs().verif_file_refs(file_id));
+    out
+}
+
+/// Number of entries anywhere in the indexes or the VFS that mention `file_id`.
+pub fn file_refs(db: &DbIndex, file_id: FileId) -> usize {
+    file_refs_detail(db, file_id).iter().map(|(_, n)| n).sum()
+}
+
+/// Structural defects of the module tree (nodes unreachable from the root, broken
+/// parent links); empty when the tree is well formed.
+pub fn module_tree_defects(db: &DbIndex) -> Vec<String> {
+    db.get_module_index().verif_tree_defects()
+}
